@@ -558,8 +558,125 @@ def _bounded_model(tier, seed):
     return {"tool": "native differential testing of the real ByteVec against a bytearray model (writes, appends, slices, words, copies, unwrap; concrete contents)", "bound": f"{n} random sequences of 60 operations, offsets < 104", "cases": n, "failures": fails}
 
 
+# ---------------------------------------------------------------------------------------
+# the chunk contract (both chunk classes): a chunk is a window into immutable backing data
+
+
+def chunk_contract_cases():
+    out = []
+
+    def harness_concrete_slice(interp):
+        ctx = interp.ctx
+        ch = mk_chunk(ctx, "c")
+        ch.length = SymInt(z3.Int("c_len0"))
+        ctx.assume(z3.And(ch.length.e >= 0, ch.start.e + ch.length.e <= ch.data.n.e))
+        a, b = nonneg(ctx, "a"), nonneg(ctx, "b")
+        ctx.assume(z3.And(a.e <= b.e, b.e <= ch.length.e))
+        ok, r = guarded(interp, lambda: interp.call(ConcreteChunk.__dict__["slice"], [ch, a, b], {}))
+        if ok:
+            ctx.oblige("ConcreteChunk.slice(a, b) is the window [start+a, start+b) of the same backing data", z3.And(z3.BoolVal(type(r) is ConcreteChunk and r.data is ch.data), ie(r.start) == ch.start.e + a.e, ie(r.length) == b.e - a.e))
+        off = nonneg(ctx, "off")
+        ok, g = guarded(interp, lambda: interp.call(ConcreteChunk.__dict__["get_byte"], [ch, off], {}), allowed=(IndexError,))
+        if ok:
+            ctx.oblige("ConcreteChunk.get_byte(k) is byte start+k of the backing data, only for k < length", z3.And(off.e < ch.length.e, ie(g) == ch.data.byte_expr(ch.start.e + off.e)))
+        elif ok is False:
+            ctx.oblige("ConcreteChunk.get_byte raises IndexError only out of range", off.e >= ch.length.e)
+
+    out.append(Case(f"{PROP}/bytevec.ConcreteChunk#window", "slice and get_byte, symbolic window", harness_concrete_slice, sources=("halmos.bytevec:ConcreteChunk.slice", "halmos.bytevec:ConcreteChunk.get_byte", "halmos.bytevec:ConcreteChunk.__init__")))
+
+    def harness_symbolic_slice(interp):
+        ctx = interp.ctx
+        N = 16
+        d = z3.BitVec("sdata", 8 * N)
+        ch = object.__new__(SymbolicChunk)
+        ch.data, ch.data_byte_length = d, N
+        ch.start, ch.length = nonneg(ctx, "s_start"), nonneg(ctx, "s_len")
+        ctx.assume(ch.start.e + ch.length.e <= N)
+        a, b = nonneg(ctx, "a"), nonneg(ctx, "b")
+        ctx.assume(z3.And(a.e <= b.e, b.e <= ch.length.e))
+        ok, r = guarded(interp, lambda: interp.call(SymbolicChunk.__dict__["slice"], [ch, a, b], {}))
+        if ok:
+            ctx.oblige("SymbolicChunk.slice(a, b) is the window [start+a, start+b) of the same backing term", z3.And(z3.BoolVal(type(r) is SymbolicChunk and r.data is d), ie(r.start) == ch.start.e + a.e, ie(r.length) == b.e - a.e))
+
+    out.append(Case(f"{PROP}/bytevec.SymbolicChunk#window", "slice, symbolic window", harness_symbolic_slice, replay=replay_symbolic_reslice, sources=("halmos.bytevec:SymbolicChunk.slice", "halmos.bytevec:SymbolicChunk.__init__")))
+
+    def harness_symbolic_read(interp):
+        ctx = interp.ctx
+        N = 5
+        d = z3.BitVec("sdata", 8 * N)
+
+        def byte(k):
+            return z3.Extract(8 * (N - k) - 1, 8 * (N - k - 1), d)
+
+        for st in range(N + 1):
+            for ln in range(N - st + 1):
+                ch = SymbolicChunk(d, st, ln)
+                for k in range(ln):
+                    g = interp.call(SymbolicChunk.__dict__["get_byte"], [ch, k], {})
+                    ctx.oblige(f"SymbolicChunk.get_byte[window {st}+{ln}, offset {k}] is byte start+k of the backing term", g == byte(st + k))
+                try:
+                    interp.call(SymbolicChunk.__dict__["get_byte"], [ch, ln], {})
+                    oob = False
+                except IndexError:
+                    oob = True
+                ctx.oblige(f"SymbolicChunk.get_byte[window {st}+{ln}] raises IndexError at offset = length", z3.BoolVal(oob))
+                if ln:
+                    u = interp.call(SymbolicChunk.__dict__["unwrap"], [ch], {})
+                    want = z3.Concat(*[byte(st + k) for k in range(ln)]) if ln > 1 else byte(st)
+                    ctx.oblige(f"SymbolicChunk.unwrap[window {st}+{ln}] is the big-endian concatenation of the window's bytes", z3.BoolVal(z3.is_bv(u) and u.size() == 8 * ln) if not (z3.is_bv(u) and u.size() == 8 * ln) else u == want)
+
+    out.append(Case(f"{PROP}/bytevec.SymbolicChunk#window", "get_byte and unwrap, every window of a 5-byte term", harness_symbolic_read, replay=replay_symbolic_reslice, sources=("halmos.bytevec:SymbolicChunk.get_byte", "halmos.bytevec:SymbolicChunk.unwrap")))
+
+    # State.__deepcopy__: the copy owns a copy of the memory and a copy of the stack, for every memory (also an empty one)
+    for label in ("empty memory", "one chunk", "two chunks"):
+
+        def harness_state_copy(interp, label=label):
+            import copy
+
+            ctx = interp.ctx
+            mem = ByteVec()
+            if label != "empty memory":
+                mem.append(b"\x01\x02")
+            if label == "two chunks":
+                mem.append(z3.BitVec("w", 256))
+            st = hs.State(stack=[1, 2, 3], memory=mem)
+            new = interp.call(hs.State.__dict__["__deepcopy__"], [st, {}], {})
+            ctx.oblige("the copy of a state owns its own memory container (also when the memory is still empty)", z3.BoolVal(new.memory is not mem and new.memory.chunks is not mem.chunks))
+            ctx.oblige("the copy has the same memory contents and length", z3.BoolVal(list(new.memory.chunks.items()) == list(mem.chunks.items()) and new.memory.length == mem.length))
+            ctx.oblige("the copy owns its own stack with the same items", z3.BoolVal(new.stack is not st.stack and new.stack == st.stack and new is not st))
+
+        out.append(Case(f"{PROP}/sevm.State.__deepcopy__", label, harness_state_copy, replay=replay_state_copy, sources=("halmos.sevm:State.__deepcopy__",)))
+    return out
+
+
+def replay_state_copy(r):
+    import copy
+
+    st = hs.State()
+    new = copy.deepcopy(st)
+    new.memory.set_word(0, 0xAA)
+    if len(st.memory) != 0:
+        return {"reproduced": True, "detail": f"st = State() (empty memory); c = deepcopy(st); c.memory.set_word(0, 0xaa): the original's memory now has length {len(st.memory)} and reads {st.memory.get_word(0):#x} at 0 (a fork or call-return copy taken before the first memory write aliases the original)", "inputs": "deepcopy of a State with empty memory, then a write to the copy"}
+    return {"reproduced": False, "detail": "a write to the copy of an empty-memory state does not reach the original"}
+
+
+def replay_symbolic_reslice(r):
+    x = z3.BitVec("x", 256)
+    m = ByteVec()
+    m.set_word(0, x)
+    m.set_byte(4, 0xAA)
+    m.set_byte(10, 0xBB)
+    got = m.get_byte(7)
+    want = z3.Extract(255 - 8 * 7, 248 - 8 * 7, x)
+    s_ = z3.Solver()
+    s_.add(got != want if z3.is_expr(got) else z3.BoolVal(True))
+    if s_.check() == z3.sat:
+        return {"reproduced": True, "detail": f"MSTORE(0, x); MSTORE8(4, 0xaa); MSTORE8(10, 0xbb): byte 7 reads {got}, the flat array has byte 7 of x ({want})", "inputs": "set_word(0, x); set_byte(4, 0xaa); set_byte(10, 0xbb); get_byte(7)"}
+    return {"reproduced": False, "detail": "twice-split symbolic word reads the right bytes"}
+
+
 def build_cases(tier="quick"):
-    return read_cases() + write_cases() + copy_cases()
+    return read_cases() + write_cases() + copy_cases() + chunk_contract_cases()
 
 
 def bounded():
